@@ -44,6 +44,9 @@ func ZzC15() {
 		R = 1 + zz.Choice("R", d) // trust range 1..d
 	}
 
+	// what the header type returns for "too far to verify directly" in the trust-range mode: a soft
+	// *VerifyError, or an ordinary error that header.Verify itself has to classify (soft: never adjacent here)
+	plainErrs := mode == 1 && zz.Bool("errshape.plain")
 	var calls []zzCall
 	memo := map[[2]int]int{}
 	zh.VerifyFn = func(t, u *zh.Hdr) error {
@@ -69,6 +72,9 @@ func ZzC15() {
 		case 0:
 			return nil
 		case 1:
+			if plainErrs {
+				return zzErrGetter
+			}
 			return &header.VerifyError{Reason: zzErrGetter, SoftFailure: true}
 		default:
 			return &header.VerifyError{Reason: zzErrGetter}
